@@ -215,6 +215,7 @@ type Ref struct {
 	// EllswiftOK records the in-handshake ElligatorSwift assertion
 	// (decode(encode(x)) = x for our own key).
 	EllswiftOK bool
+	KeyMade    bool
 }
 
 func NewRef(rw io.ReadWriter, initiating bool, magic uint32) *Ref {
@@ -286,6 +287,7 @@ func (r *Ref) makeKey(pm int) error {
 		copy(r.ours[:32], ub[:])
 		copy(r.ours[32:], t.Bytes()[:])
 		r.priv = priv
+		r.KeyMade = true
 		// ElligatorSwift exercise: the encoding decodes to the encoded x.
 		dx, err := ellswift.XSwiftEC(fieldFromBytes(r.ours[:32]), fieldFromBytes(r.ours[32:]))
 		r.EllswiftOK = err == nil && bytes.Equal(dx.Bytes()[:], xb)
